@@ -115,7 +115,7 @@ def run(ctx, rep):
         good = good and fl and all(b.dominates(w, fl[0]) for w in wr)
         rep.check("C13.flush", "%s: locally owned BufWriter is flushed (through the BufWriter) and the result propagated" % strip_generics(b.path), bool(good), loc_of(b, t), "",
                   "a BufWriter created and dropped inside %s is not flushed through the BufWriter itself with its result returned: a failing write would be swallowed by BufWriter's Drop; success facts: %s" % (strip_generics(b.path), fact_str(s)))
-    rep.floor("C13.flush", "BufWriter constructions", len(news), 4)
+    rep.floor("C13.flush", "BufWriter constructions", len(news), 2)
     rep.floor("C13.flush", "locally owned BufWriters", local_ones, 1)
     ub = anchor(F, rep, "C13.flush", "metadata::update_file")
     if ub is not None:
